@@ -119,6 +119,22 @@ static void history_cases() {
             if (!ok) { violation(key, fmt("step %d (Msize=%d): a decryption differs from the message after earlier operations in this process", step + 1, Mq)); break; } eval(3); }
         nontrivial(1); outcome(mix(M, M2));
     }
+    // the same key OBJECT re-generated: whatever is cached per key must not survive new key content
+    for (int kk : {1, 2}) for (int M : {4, 5}) {
+        std::string key = fmt("history/rekey/k=%d/M=%d", kk, M);
+        if (!take(key)) continue; if (deadline()) return;
+        current(key); seed_gen(key, 0);
+        TLweParams *tp = new_TLweParams(N, kk, 1e-6, 0.25); TGswParams *gp = new_TGswParams(3, 7, tp); TGswKey *gk = new_TGswKey(gp); TLweKey *tk = new_TLweKey(tp); TLweSample *c = new_TLweSample(tp); TGswSample *g = new_TGswSample(gp);
+        TorusPolynomial *msg = new_TorusPolynomial(N), *dec = new_TorusPolynomial(N); IntPolynomial *im = new_IntPolynomial(N), *id = new_IntPolynomial(N); LweParams *lp = new_LweParams(7, 1e-4, 0.25); LweKey *lk = new_LweKey(lp); LweSample *lc = new_LweSample(lp);
+        for (int round = 0; round < 3; round++) { tLweKeyGen(tk); tGswKeyGen(gk); lweKeyGen(lk); bool ok = true;
+            for (int j = 0; j < N; j++) { msg->coefsT[j] = modSwitchToTorus32((j + round) % M, M); im->coefs[j] = (j * 3 + round) % 4; }
+            tLweSymEncrypt(c, msg, 1e-6, tk); tLweSymDecrypt(dec, c, tk, M); if (memcmp(dec->coefsT, msg->coefsT, N * 4)) ok = false;
+            Torus32 mu = modSwitchToTorus32((round + 1) % M, M); tLweSymEncryptT(c, mu, 1e-6, tk); if (tLweSymDecryptT(c, tk, M) != mu) ok = false;
+            tGswSymEncrypt(g, im, 1e-6 / 128, gk); tGswSymDecrypt(id, g, gk, 4); for (int j = 0; j < N; j++) if (((id->coefs[j] - im->coefs[j]) % 4 + 4) % 4) { ok = false; break; }
+            lweSymEncrypt(lc, mu, 1e-4, lk); if (lweSymDecrypt(lc, lk, M) != mu) ok = false;
+            if (!ok) { violation(key, fmt("after re-generating the same key objects (round %d) a fresh encryption no longer decrypts to its message", round + 1)); break; } eval(4); }
+        nontrivial(1); outcome(mix(kk, M + 50));
+    }
     sample("history/tgsw/(3,10)M=4-then-(4,8)M=4-then-first: three encrypt/decrypt round trips in one process, alternating parameter sets with the same Msize");
 }
 
